@@ -75,13 +75,15 @@ Leaves == DOMAIN LeafSchemas
 ScalarLeaves == {x \in Leaves : Has(LeafSchemas[x], "type") /\ LeafSchemas[x].type \in {"integer", "number", "string", "boolean"}}
 
 Wrappers == {"top", "opt", "req", "item", "item2", "mapval", "ref_opt", "ref_req", "nullable", "req_ro", "req_default", "allof_prop",
-             "alias", "refalias_opt", "refalias_item"}
+             "alias", "refalias_opt", "refalias_item", "propmapref", "propmapmapref"}
 
 \* wrappers that only make sense for some leaves
 WrapOK(leaf, w) ==
   CASE w = "req_default" -> leaf \in ScalarLeaves
     [] w = "nullable"    -> leaf \in ScalarLeaves
     \* a definition that is a bare $ref to another definition, and properties / items reaching it
+    \* a property that is an inline map (of maps) whose values refer to the NAMED map definition of the leaf
+    [] w \in {"propmapref", "propmapmapref"} -> leaf \in {"int_min", "str_maxlen", "obj_req", "arr_int", "num_xhi", "int_enum"}
     [] w \in {"alias", "refalias_opt", "refalias_item"} -> leaf \in {"obj_req", "obj_map", "int_min", "str_maxlen", "arr_int", "obj_allof", "num_xhi"}
     [] OTHER -> TRUE
 
@@ -103,6 +105,9 @@ Wrap(leaf, w) ==
     [] w = "alias"   -> [ref |-> LeafDefName(leaf)]
     [] w = "refalias_opt"  -> [type |-> "object", properties |-> [p |-> [ref |-> DefName(leaf, "alias")]]]
     [] w = "refalias_item" -> [type |-> "array", items |-> [ref |-> DefName(leaf, "alias")]]
+    [] w = "propmapref"    -> [type |-> "object", properties |-> [p |-> [type |-> "object", additionalProperties |-> [ref |-> DefName(leaf, "mapval")]]]]
+    [] w = "propmapmapref" -> [type |-> "object", properties |-> [p |-> [type |-> "object", additionalProperties |->
+                                  [type |-> "object", additionalProperties |-> [ref |-> DefName(leaf, "mapval")]]]]]
     [] w = "ref_opt" -> [type |-> "object", properties |-> [p |-> [ref |-> LeafDefName(leaf)]]]
     [] w = "ref_req" -> [type |-> "object", required |-> <<"p">>, properties |-> [p |-> [ref |-> LeafDefName(leaf)]]]
     [] w = "nullable"-> [type |-> "object", properties |-> [p |-> Put(s, "x-nullable", TRUE)]]
@@ -129,6 +134,14 @@ SpecialSchemas ==
     sp_alias_uuid_user |-> [type |-> "object", required |-> <<"id">>, properties |-> [id |-> [ref |-> "sp_alias_uuid"], ids |-> [type |-> "array", items |-> [ref |-> "sp_alias_uuid"]]]],
     sp_pet        |-> [type |-> "object", discriminator |-> "kind", required |-> <<"kind", "name">>,
                        properties |-> [kind |-> [type |-> "string"], name |-> [type |-> "string"]]],
+    \* models that go through the serializer of polymorphic holders / subtypes, with REQUIRED properties of
+    \* non-pointer Go types (map, x-nullable:false scalars): their zero values must survive encoding
+    sp_shelter    |-> [type |-> "object", required |-> <<"labels", "capacity", "open", "motto">>,
+                       properties |-> [resident |-> [ref |-> "sp_pet"], labels |-> [type |-> "object", additionalProperties |-> [type |-> "string"]],
+                                       capacity |-> ([type |-> "integer"] @@ ("x-nullable" :> FALSE)), open |-> ([type |-> "boolean"] @@ ("x-nullable" :> FALSE)),
+                                       motto |-> ([type |-> "string"] @@ ("x-nullable" :> FALSE))]],
+    sp_sibling    |-> [allOf |-> <<[ref |-> "sp_pet"]>>, required |-> <<"traits", "lives">>,
+                       properties |-> [traits |-> [type |-> "object", additionalProperties |-> [type |-> "string"]], lives |-> ([type |-> "integer"] @@ ("x-nullable" :> FALSE))]],
     sp_feline     |-> ("allOf" :> <<[ref |-> "sp_pet"], [type |-> "object", properties |-> [lives |-> [type |-> "integer"]]]>>) @@ ("x-go-name" :> "HouseFeline"),
     sp_cat        |-> [allOf |-> <<[ref |-> "sp_pet"], [type |-> "object", properties |-> [claws |-> [type |-> "integer", minimum |-> 2]]]>>],
     sp_dog        |-> [allOf |-> <<[ref |-> "sp_pet"], [type |-> "object", required |-> <<"bark">>, properties |-> [bark |-> [type |-> "string"]]]>>],
@@ -157,6 +170,13 @@ SpecialInstances(name) ==
     [] name = "sp_alias_uuid_user" -> {Obj([id |-> UUID]), Obj([id |-> UUID, ids |-> Arr(<<UUID, UUID>>)]), Obj([id |-> Str("a")]), Obj(<<>>), Obj([id |-> UUID, ids |-> Arr(<<Str("b")>>)])}
     [] name = "sp_pet" -> {Cat("a", 4), Dog("b", "ab"), Obj([kind |-> Str("sp_cat")]), Obj([name |-> Str("a")])}
     [] name = "sp_cat" -> {Cat("a", 4), Cat("a", 0), Obj([kind |-> Str("sp_cat"), name |-> Str("a")]), Obj([kind |-> Str("sp_cat"), name |-> Str("a"), claws |-> Str("x")])}
+    [] name = "sp_shelter" -> {Obj([labels |-> Obj([k |-> Str("a")]), capacity |-> Num(4), open |-> Bool(TRUE), motto |-> Str("ab"), resident |-> Cat("a", 4)]),
+                               Obj([labels |-> Obj(<<>>), capacity |-> Num(0), open |-> Bool(FALSE), motto |-> Str(""), resident |-> Dog("b", "ab")]),
+                               Obj([labels |-> Obj(<<>>), capacity |-> Num(0), open |-> Bool(FALSE), motto |-> Str("")]),
+                               Obj([capacity |-> Num(2)])}
+    [] name = "sp_sibling" -> {Obj([kind |-> Str("sp_sibling"), name |-> Str("a"), traits |-> Obj([k |-> Str("b")]), lives |-> Num(18)]),
+                               Obj([kind |-> Str("sp_sibling"), name |-> Str(""), traits |-> Obj(<<>>), lives |-> Num(0)]),
+                               Obj([kind |-> Str("sp_sibling"), name |-> Str("a")])}
     [] name = "sp_feline" -> {Obj([kind |-> Str("sp_feline"), name |-> Str("a"), lives |-> Num(18)]), Obj([kind |-> Str("sp_feline"), name |-> Str("a")]),
                               Obj([kind |-> Str("sp_feline")])}
     [] name = "sp_dog" -> {Dog("b", "ab"), Obj([kind |-> Str("sp_dog"), name |-> Str("b")])}
@@ -225,6 +245,8 @@ Instances(name) ==
   LET k == KeyOf(name)  leaf == k[1]  w == k[2]  vs == LeafVals(leaf) IN
   CASE w \in {"top", "alias"} -> vs
     [] w = "refalias_item" -> {Arr(<<v>>) : v \in vs} \cup {Arr(<<>>)}
+    [] w = "propmapref"    -> {Obj([p |-> Obj([k |-> Obj([j |-> v])])]) : v \in vs} \cup {Obj(<<>>), Obj([p |-> Obj(<<>>)]), Obj([p |-> Obj([k |-> Obj(<<>>)])])}
+    [] w = "propmapmapref" -> {Obj([p |-> Obj([k |-> Obj([j |-> Obj([i |-> v])])])]) : v \in vs} \cup {Obj(<<>>), Obj([p |-> Obj([k |-> Obj(<<>>)])])}
     [] w \in {"opt", "req", "ref_opt", "ref_req", "nullable", "req_ro", "req_default", "refalias_opt"} ->
          {Obj([p |-> v]) : v \in vs} \cup {Obj(<<>>), Obj([p |-> Null]), Obj([z |-> Num(2)])}
     [] w = "allof_prop" ->
